@@ -203,4 +203,44 @@ Proof.
   eapply tab_frame_trans_same; [apply tab_frame_set_m|]. eapply tab_frame_trans_same; [exact T1|apply tab_frame_set_m].
 Qed.
 
+
+(* AllocateMemoryForBuffer / AllocateMemoryForImage that fail *)
+Lemma allocate_for_resource_fail_dead v s image res usage flags req pref ctb pool :
+  VamInvU c v [] [] -> 0 <= s < zlen (v_tab v) -> a_allocated (get_alloc v s) = false ->
+  let '(v', r) := allocate_for_resource c v s image res usage flags req pref ctb pool in
+  match r with ER _ => tab_frame v v' [s] /\ a_allocated (get_alloc v' s) = false | _ => True end.
+Proof.
+  intros HI Hr Hd. unfold allocate_for_resource.
+  assert (Hrefl : tab_frame v v [s] /\ a_allocated (get_alloc v s) = false) by (split; [apply tab_frame_refl|exact Hd]).
+  destruct (res =? 0); [exact Hrefl|]. rewrite Hd.
+  destruct (get_requirements_spec c (v_m v) image res) as (m2 & rq & rd & pd & Egr & H2). rewrite Egr.
+  assert (I2 : VamInvU c (set_m v m2) [] []) by (apply VamInvU_mach_same; auto).
+  assert (Hnd : NoDup [s]) by (constructor; [intros []|constructor]).
+  assert (Hdead : dead_slots (set_m v m2) [s]) by (intros x [<-|[]]; auto).
+  match goal with |- context [multi_allocate c (set_m v m2) ?a1 ?a2 ?a3 ?a4 ?a5 ?a6 ?a7 usage flags req pref ctb pool ?sb [s]] =>
+    pose proof (multi_allocate_inv c Hc (set_m v m2) [] a1 a2 a3 a4 a5 a6 a7 usage flags req pref ctb pool sb [s] I2 Hnd Hdead) as MA;
+    destruct (multi_allocate c (set_m v m2) a1 a2 a3 a4 a5 a6 a7 usage flags req pref ctb pool sb [s]) as (v3 & r) end.
+  destruct r as [[]|code| |]; auto. destruct MA as (_ & T & _ & D).
+  split; [eapply tab_frame_trans_same; [apply tab_frame_set_m|exact T]|apply (D s); left; reflexivity].
+Qed.
+
+Theorem failed_alloc_for_no_trace v slot image res usage flags req pref ctb pool f v' code calls :
+  VamInv c v -> 0 <= slot < zlen (v_tab v) -> a_allocated (get_alloc v slot) = false ->
+  step c v (OAllocFor slot image res usage flags req pref ctb pool) f = (v', RErr code, calls) ->
+  VamInv c v' /\ same_slots v v'.
+Proof.
+  intros HI Hok Hdead Hs.
+  pose proof (step_preserves c Hc v (OAllocFor slot image res usage flags req pref ctb pool) f HI Hok) as P. rewrite Hs in P. destruct (P ltac:(discriminate) ltac:(discriminate)) as (I1 & _).
+  split; [exact I1|]. unfold step in Hs. cbn [exec] in Hs.
+  set (v0 := set_m v (clear_calls (set_fault (v_m v) f 0))) in *.
+  assert (I0 : VamInv c v0).
+  { unfold v0, VamInv. apply VamInvU_mach_same; [exact HI|]. split; cbn; [apply mems_same_refl|lia]. }
+  pose proof (allocate_for_resource_fail_dead v0 slot image res usage flags req pref ctb pool I0 Hok Hdead) as Q.
+  destruct (allocate_for_resource c v0 slot image res usage flags req pref ctb pool) as (v1 & r1).
+  destruct r1 as [[]|code1| |]; cbn in Hs; try discriminate. injection Hs as <- _ _. destruct Q as (T1 & D1).
+  apply (same_slots_frame v _ [slot]).
+  - eapply tab_frame_trans_same; [apply tab_frame_set_m|]. eapply tab_frame_trans_same; [exact T1|apply tab_frame_set_m].
+  - intros s [<-|[]]. split; [exact Hdead|exact D1].
+Qed.
+
 End WithCfg.
